@@ -86,7 +86,20 @@ func (t *c17StreamOnly) StreamableRun(ctx context.Context, args string, opts ...
 	if err := t.pre(ctx); err != nil {
 		return nil, err
 	}
-	return schema.StreamReaderFromArray([]string{c17P(t.name, args), c17Q(t.name, args)}), nil
+	// a producer that honours its context: it goes on producing after StreamableRun has returned and gives up when the
+	// context it was started with is cancelled (the buffer holds both frames: it never blocks)
+	sr, sw := schema.Pipe[string](2)
+	p, q := c17P(t.name, args), c17Q(t.name, args)
+	go func() {
+		defer sw.Close()
+		sw.Send(p, nil)
+		if err := ctx.Err(); err != nil {
+			sw.Send("", err)
+			return
+		}
+		sw.Send(q, nil)
+	}()
+	return sr, nil
 }
 
 type c17InvokeOnly struct{ c17Base }
@@ -254,6 +267,11 @@ func c17Run(n int, useStream bool, inGraph bool, withHandler bool, faults bool, 
 func VerifC17Invoke2()     { c17Run(2, false, false, vchoose("handler", 2) == 1, false, false) }
 func VerifC17Stream2()     { c17Run(2, true, false, vchoose("handler", 2) == 1, false, false) }
 func VerifC17Invoke3()     { c17Run(3, false, false, true, false, false) }
+
+// a single call (no merge of several tool streams), every tool kind, optionally failing or panicking, in and outside a graph
+func VerifC17Single() {
+	c17Run(1, vchoose("stream", 2) == 1, vchoose("graph", 2) == 1, true, true, false)
+}
 func VerifC17Stream3()     { c17Run(3, true, false, true, false, false) }
 func VerifC17Faults()      { c17Run(2, vchoose("stream", 2) == 1, false, true, true, false) }
 func VerifC17GraphFaults() { c17Run(2, vchoose("stream", 2) == 1, true, true, true, false) }
